@@ -1,7 +1,7 @@
 """Symbolic executor / VC generator over the Python ast (see engine.py docstring)."""
 import ast
 import z3
-from .engine import (I, R, B, A1, A2, CPLX, cmul, fresh, OutOfFragment, ContractError, AV, Ref, View, IdxList,
+from .engine import (I, R, B, A1, A2, CPLX, cmul, fresh, OutOfFragment, ContractError, MissingSnapshot, UnknownName, AV, Ref, View, IdxList,
                      Gather, ArrCmp, ListObj, Obj, Unbound, State, VC, SpecEval, elem_sort, arr_sort,
                      is_z3, to_z3, as_bool, as_num, compare, scalar_binop, array_binop)
 
@@ -109,8 +109,14 @@ class FuncVerifier(object):
         for node in ast.walk(fdef):
             pass
         # pre-order numbering (ast.walk is BFS; do DFS explicitly)
+        self.if_ord = {}
+        n_if = 0
+
         def dfs(n):
-            nonlocal n_loop, n_assert
+            nonlocal n_loop, n_assert, n_if
+            if isinstance(n, ast.If):
+                self.if_ord[id(n)] = n_if
+                n_if += 1
             if isinstance(n, (ast.For, ast.While)):
                 self.loop_ord[id(n)] = n_loop
                 n_loop += 1
@@ -157,6 +163,7 @@ class FuncVerifier(object):
         sp = SpecEval(self.lib.theory, env, st.heap, self.entry.env, self.entry.heap, self.lib.preds, bound)
         sp.fresh_locs = st.fresh_locs
         sp.entry_locs = self.entry.heap.keys()
+        sp.snaps = st.snaps
         return sp
 
     # ------------------------------------------------------------------ hints (ghost code)
@@ -166,8 +173,52 @@ class FuncVerifier(object):
              ('assert', expr)                  prove expr here, then assume it (intermediate assertion)
              ('forall_lemma', k, lo, hi, name, [arg exprs])   instantiate for all k in [lo,hi) (requires proved under the range)
         """
+        if hints:
+            st.snaps = dict(st.snaps)
+            st.snaps[site] = (dict(st.env) if not extra else dict(st.env, **extra), dict(st.heap))
         for hi_, h in enumerate(hints):
+            try:
+                self.apply_one_hint(st, h, hi_, site, extra)
+            except (MissingSnapshot, UnknownName) if h[0] in ('assert_from', 'assert_using') and len(h) > 4 and h[4] == 'optional' else MissingSnapshot:
+                continue      # the hint refers to a program point this path did not pass: not applicable here
+
+    def apply_one_hint(self, st, h, hi_, site, extra):
+        for _once in (0,):
             kind = h[0]
+            if kind == 'assert_from':
+                # ('assert_from', expr, [facts]): each fact is proved from the full path condition; expr is then proved
+                # from the facts and the quantifier-free part of the path condition ONLY (a `by` clause: keeps the
+                # solver away from unrelated quantified hypotheses); expr is assumed afterwards
+                if st.snaps.get(('done', site, h[1])):
+                    continue          # an earlier, more specific hint already established this on this path
+                sp = self.spec(st, extra=extra)
+                facts = []
+                for fi, fx in enumerate(h[2]):
+                    fz = sp.ev_bool(fx)
+                    self.oblige(st, '%s.hint%d.fact%d' % (site, hi_, fi), fz, note=fx)
+                    facts.append(fz)
+                g = sp.ev_bool(h[1])
+                light = [x for x in st.pc if not has_quantifier(x)]
+                oid = '%s::%s.hint%d.assert' % (self.c.key, site, hi_)
+                cases = [sp.ev_bool(c) for c in (h[3] if len(h) > 3 else [])]
+                if cases:
+                    # explicit case split (must be exhaustive): one query per case
+                    self.vcs.append(VC(oid, light + facts, z3.Or(*cases), None, 'cases exhaustive'))
+                    for cz in cases:
+                        self.vcs.append(VC(oid, light + facts + [cz], g, None, h[1]))
+                else:
+                    self.vcs.append(VC(oid, light + facts, g, None, h[1]))
+                self.assume(st, g)
+                st.snaps[('done', site, h[1])] = True
+                continue
+            if kind == 'assert_using':
+                # ('assert_using', expr, [hints]): prove expr with the given lemma instances in scope, keep only expr
+                scratch = st.copy()
+                self.apply_hints(scratch, h[2], '%s.hint%d.using' % (site, hi_), extra)
+                g = self.spec(scratch, extra=extra).ev_bool(h[1])
+                self.oblige(scratch, '%s.hint%d.assert' % (site, hi_), g)
+                self.assume(st, self.spec(st, extra=extra).ev_bool(h[1]))
+                continue
             if kind == 'assert':
                 g = self.spec(st, extra=extra).ev_bool(h[1])
                 self.oblige(st, '%s.hint%d.assert' % (site, hi_), g)
@@ -189,20 +240,27 @@ class FuncVerifier(object):
                 for p in post:
                     self.assume(st, p)
             elif kind == 'forall_lemma':
-                _, k, lo, hi, name, argexprs = h
+                if len(h) == 6:
+                    binders, name, argexprs = [(h[1], h[2], h[3])], h[4], h[5]
+                else:
+                    _, binders, name, argexprs = h
                 lem = self.lib.lemmas[name]
                 sp = self.spec(st, extra=extra)
-                lo_v = as_num(sp.ev_str(lo))
-                hi_v = as_num(sp.ev_str(hi))
-                kv = fresh(k, I)
-                sp.bound[k] = kv
+                kvs, rngs = [], []
+                for (k, lo, hi) in binders:
+                    lo_v = as_num(sp.ev_str(lo))
+                    hi_v = as_num(sp.ev_str(hi))
+                    kv = fresh(k, I)
+                    sp.bound[k] = kv
+                    kvs.append(kv)
+                    rngs += [lo_v <= kv, kv < hi_v]
                 args = [sp.ev_str(a) for a in argexprs]
                 pre, post = instantiate_lemma(self.lib, lem, args)
-                rng = z3.And(lo_v <= kv, kv < hi_v)
+                rng = z3.And(*rngs)
                 if pre:
                     self.oblige(st, '%s.hint%d.%s.pre' % (site, hi_, lem.name),
-                                z3.ForAll([kv], z3.Implies(rng, z3.And(*pre))))
-                self.assume(st, z3.ForAll([kv], z3.Implies(rng, z3.And(*post))))
+                                z3.ForAll(kvs, z3.Implies(rng, z3.And(*pre))))
+                self.assume(st, z3.ForAll(kvs, z3.Implies(rng, z3.And(*post))))
             else:
                 raise ContractError('unknown hint kind %r' % (kind,))
 
@@ -411,6 +469,9 @@ class FuncVerifier(object):
         return [(st, None)]
 
     def st_If(self, n, st):
+        k = self.if_ord.get(id(n))
+        if k is not None and ('if%d.before' % k) in self.c.hints:
+            self.apply_hints(st, self.c.hints['if%d.before' % k], 'if%d.before' % k)
         cond = self.truth(self.pev(n.test, st), st, n)
         cs = z3.simplify(cond)
         outs = []
@@ -586,6 +647,8 @@ class FuncVerifier(object):
         args = [as_num(self.pev(a, st)) for a in n.iter.args]
         lo, hi = (z3.IntVal(0), args[0]) if len(args) == 1 else (args[0], args[1])
         site = 'loop%d' % k
+        st.snaps = dict(st.snaps)
+        st.snaps[site + '.pre'] = (dict(st.env), dict(st.heap))
         self.oblige(st, site + '.range', lo <= hi, n, note='range(lo, hi) with lo <= hi')
         # --- init
         s_init = st.copy()
@@ -608,6 +671,7 @@ class FuncVerifier(object):
         # --- body
         s_b = s_h.copy()
         s_b.pc.append(iv < hi)
+        s_b.snaps[site + '.head'] = (dict(s_b.env), dict(s_b.heap))
         self.apply_hints(s_b, ls.hints_head, site + '.head')
         for (s1, ctl) in self.exec_block(n.body, s_b):
             if ctl is None or ctl == 'continue':
@@ -842,6 +906,20 @@ class FuncVerifier(object):
         return out[0] if len(out) == 1 else z3.And(*out)
 
     def ex_BinOp(self, n, st):
+        # (A + B) % 2 on two 1-D integer arrays is the spec function Xor(A, B): using the canonical term makes
+        # equal operations on equal operands equal by congruence (no extensionality argument needed)
+        if isinstance(n.op, ast.Mod) and isinstance(n.right, ast.Constant) and n.right.value == 2 \
+                and isinstance(n.left, ast.BinOp) and isinstance(n.left.op, ast.Add) and 'Xor' in self.lib.theory.decls:
+            a = self.pev(n.left.left, st)
+            b = self.pev(n.left.right, st)
+            if isinstance(a, (Ref, View, AV)) and isinstance(b, (Ref, View, AV)):
+                av_a, av_b = self.deref(a, st), self.deref(b, st)
+                if av_a.ndim == 1 and av_b.ndim == 1 and av_a.elem == 'int' and av_b.elem == 'int':
+                    self.oblige(st, self.site(n, 'shape'), av_a.shape[0] == av_b.shape[0], n)
+                    term = self.lib.theory.decls['Xor'](av_a.term, av_b.term)
+                    return st.alloc(AV(term, av_a.shape, 'int'))
+            s_ = self.bin(ast.Add(), a, b, st, n.left)
+            return self.bin(n.op, s_, to_z3(2), st, n)
         a = self.pev(n.left, st)
         b = self.pev(n.right, st)
         return self.bin(n.op, a, b, st, n)
@@ -860,6 +938,24 @@ class FuncVerifier(object):
                 self.oblige(st, self.site(node, 'shape'), z3.And(*side), node)
             st.pc.extend(axioms)
             return st.alloc(res)
+        if isinstance(op, (ast.Mod, ast.FloorDiv)) and is_z3(to_z3(a)) and is_z3(to_z3(b)):
+            bs = z3.simplify(as_num(b))
+            if not z3.is_int_value(bs) and z3.is_int(as_num(a)) and z3.is_int(bs):
+                # modulus / floor division by a symbolic positive integer: fresh quotient and remainder
+                a_, b_ = as_num(a), as_num(b)
+                self.oblige(st, self.site(node, 'divisor'), b_ > 0, node)
+                qv, rv = fresh('quo', I), fresh('rem', I)
+                st.pc.append(a_ == qv * b_ + rv)
+                st.pc.append(z3.And(0 <= rv, rv < b_))
+                # the value is returned as an explicit case term for the common ranges 0 <= a < 2b (equalities the
+                # E-graph can use directly); outside them it is the constrained fresh remainder / quotient
+                in0 = z3.And(0 <= a_, a_ < b_)
+                in1 = z3.And(b_ <= a_, a_ < 2 * b_)
+                rv2, qv2 = fresh('mod', I), fresh('div', I)
+                st.pc.append(rv2 == z3.If(in0, a_, z3.If(in1, a_ - b_, rv)))
+                st.pc.append(qv2 == z3.If(in0, z3.IntVal(0), z3.If(in1, z3.IntVal(1), qv)))
+                rv, qv = rv2, qv2
+                return rv if isinstance(op, ast.Mod) else qv
         if is_z3(a) and a.sort() == CPLX or is_z3(b) and b.sort() == CPLX:
             if isinstance(op, ast.Mult) and a.sort() == CPLX and b.sort() == CPLX:
                 return cmul(a, b)
@@ -1381,6 +1477,20 @@ class FuncVerifier(object):
         for exc, cond in callee.raises.items():
             st.pc.append(z3.Not(spre.ev_bool(cond)))
         return result
+
+
+def has_quantifier(e, _seen=None):
+    if _seen is None:
+        _seen = {}
+    i = e.get_id()
+    if i in _seen:
+        return _seen[i]
+    if z3.is_quantifier(e):
+        r = True
+    else:
+        r = any(has_quantifier(c, _seen) for c in e.children())
+    _seen[i] = r
+    return r
 
 
 def store_nd(term, idx, val):
